@@ -165,6 +165,18 @@ def HW.writeAll : HW → Bytes → List Nat → HW
       HW.writeAll r.1 (buf.drop r.2) as
 termination_by _ _ as => as.length
 
+/-- A caller's `write_all`-style loop that presents the unconsumed rest of the buffer again after a *transient* error of the
+    inner writer (`WouldBlock`/`TimedOut`: `Write::write` returned `Err`, so by its contract nothing of that call was consumed).
+    Event `0` = the inner writer fails that call; `n > 0` = it accepts up to `n` bytes. -/
+def HW.writeRetry : HW → Bytes → List Nat → HW
+  | s, [], _ => s
+  | s, _, [] => s
+  | s, buf@(_ :: _), a :: as =>
+    if a = 0 then HW.writeRetry s buf as
+    else
+      let r := s.write buf a
+      HW.writeRetry r.1 (buf.drop r.2) as
+
 def HW.hash (P : HashPrims) (s : HW) : Hash := P.dataHash s.hashed
 
 end Xet.Merkle
